@@ -438,6 +438,8 @@ def run_step(sb: Sandbox, options: dict, step: dict, timeout: float = 180.0) -> 
         os.makedirs(os.path.join(sb.out, rel), exist_ok=True)
     before = src_digest(sb)
     extra = dict(step.get("job_extra") or {})
+    if step.get("library_entry"):
+        extra["library_entry"] = True
     if step.get("prelude_edit"):
         # the same process first analyses the same paths while the files still hold OTHER contents (an edited version of
         # the package); the child then restores the files, empties the output directory and does the run that is judged
